@@ -340,6 +340,8 @@ def _raw_targets(chunk):
             for segs in itertools.product(SEGS, repeat=n):
                 T.append(c + "/" + "/".join(segs))
     T += [c + "/" + "../" * k + tail for c in CONTAINERS for k in range(1, 7) for tail in TAILS]
+    T += [c + "/" + "../" * k + "other/repo/secret.ics" for c in CONTAINERS for k in range(1, 7)]
+    T += ["/dav" + c + "/" + "../" * k + "other/repo/secret.ics" for c in CONTAINERS[:2] for k in range(1, 5)]
     T += ["/user/calendars/cal/%2e%2e/%2e%2e/%2e%2e/%2e%2e/other/secret", "/..%2f..%2fother%2fsecret", "//../other/secret",
           "/%2e%2e/other/secret", "/user/calendars/cal/..%2f..%2f..%2f..%2fother%2fsecret"]
     return T[chunk::2]
